@@ -494,3 +494,73 @@ package core
 //@   pure
 //@ assume func (BuildTarget).TargetBuildMetadataFileName
 //@   pure
+
+// Accessors read by the rule hash: functions of the target (and, for the command, of the configuration).
+//@ assume func (BuildLabel).String
+//@   pure
+//@ assume func (BuildInput).String
+//@   pure
+//@ assume func (BuildTarget).GetCommand
+//@   pure
+//@ assume func (BuildTarget).GetTestCommand
+//@   pure
+//@ assume func (BuildTarget).AllSources
+//@   pure
+//@ assume func (BuildTarget).AllData
+//@   pure
+//@ assume func (BuildTarget).DeclaredOutputs
+//@   pure
+//@ assume func (BuildTarget).DeclaredNamedOutputs
+//@   pure
+//@ assume func (BuildTarget).DeclaredOutputNames
+//@   pure
+//@ assume func (BuildTarget).IsTest
+//@   pure
+
+// ---------------------------------------------------------------------------------------------
+// Hermetic build environment (C10)
+//
+// The only variables of the invoking shell that reach a build action are those NAMED in the target's
+// pass_env / pass_unsafe_env or in the configuration's PassEnv / PassUnsafeEnv lists: every read of the
+// process environment on the way to a build environment names an element of one of those lists, and
+// os.Environ is never consulted. (That a pass_env VALUE feeds the rule hash is ruleHash#post:pass_env.)
+//@ func TargetEnvironment
+//@   requires state != nil && target != nil && state.Config != nil
+//@   opt nopanic=off
+//@   opt inline=off
+//@   opt precall=off
+//@   callsite os.Getenv only_variables_the_target_names [C10]: \
+//@      (target.PassUnsafeEnv != nil && 0 <= idx && idx < len(deref(target.PassUnsafeEnv)) && arg_key == deref(target.PassUnsafeEnv)[idx]) || \
+//@      (target.PassEnv != nil && 0 <= idx && idx < len(deref(target.PassEnv)) && arg_key == deref(target.PassEnv)[idx])
+//@   callsite os.LookupEnv never [C10]: false
+//@   callsite os.Environ never [C10]: false
+//@ func (Configuration).getBuildEnv.lit#1
+//@   opt nopanic=off
+//@   callsite os.LookupEnv only_the_listed_variables [C10]: 0 <= idx && idx < len(vars) && arg_key == vars[idx]
+//@   callsite os.Getenv never [C10]: false
+//@   callsite os.Environ never [C10]: false
+//@ func (Configuration).getBuildEnv
+//@   requires config != nil
+//@   opt nopanic=off
+//@   opt inline=off
+//@   opt precall=off
+//@   callsite addEnv only_the_configured_lists [C10]: (includeUnsafe && arg_vars == config.Build.PassUnsafeEnv) || arg_vars == config.Build.PassEnv
+//@   callsite os.Getenv never [C10]: false
+//@   callsite os.LookupEnv never [C10]: false
+//@   callsite os.Environ never [C10]: false
+//@ func BuildEnvironment
+//@   requires state != nil && target != nil
+//@   opt nopanic=off
+//@   opt inline=off
+//@   opt precall=off
+//@   callsite os.Getenv never [C10]: false
+//@   callsite os.LookupEnv never [C10]: false
+//@   callsite os.Environ never [C10]: false
+//@ func GeneralBuildEnvironment
+//@   requires state != nil
+//@   opt nopanic=off
+//@   opt inline=off
+//@   opt precall=off
+//@   callsite os.Getenv never [C10]: false
+//@   callsite os.LookupEnv never [C10]: false
+//@   callsite os.Environ never [C10]: false
